@@ -568,6 +568,7 @@ class Interp:
         self.prog, self.cls = prog, cls
         self.assume = assume  # textual test -> outcome, for tests the domain cannot decide (np.isinf(h) ...)
         self.undecided_tests: list[str] = []
+        self.uncertain_flow: str | None = None  # the test of an undecided `if` one of whose arms returns or raises
         self.infinite: set[str] = set()  # symbols assumed infinite on this path
         self.roots: RootsOf | None = None
         self.quadric_ctors: set[str] = set()
@@ -903,6 +904,11 @@ class Interp:
                 return Opaque(f"method {name}")
             if isinstance(recv, SymObject) and hasattr(recv, name):
                 return getattr(recv, name)(*[self.ev(a_, env) for a_ in e.args])
+        if name == "cast" and len(e.args) == 2 and not e.keywords:
+            return self.ev(e.args[1], env)  # typing.cast returns its second argument
+        if name not in self.hooks and name:
+            # a private helper made public or the reverse (`_divide_by_power_of_two` / `divide_by_power_of_two`) is the same helper
+            name = next((n_ for n_ in ("_" + name, name.lstrip("_")) if n_ in self.hooks and n_ != ""), name)
         if name in self.hooks:
             args_ = []
             for a_ in e.args:
@@ -1466,6 +1472,8 @@ class Interp:
                 self.roots = sub.roots
             return d.matrix
         except _Raise:
+            if self.generic:
+                raise  # on symbolic arguments in general position every decided test is the test of the run: the helper's raise is the caller's
             return Opaque("the helper raises")
         return None
 
@@ -1477,6 +1485,14 @@ class Interp:
         if isinstance(t, ast.BoolOp):
             vals = [self.test(v, env) for v in t.values]
             return all(vals) if isinstance(t.op, ast.And) else any(vals)
+        if isinstance(t, ast.Compare) and len(t.ops) == 1 and isinstance(t.ops[0], (ast.Eq, ast.NotEq)) and self.assume.get("distinct"):
+            # the objects handed to the function are pairwise different by assumption: `a == b` between two of them is false
+            try:
+                l_, r_ = self.ev(t.left, env), self.ev(t.comparators[0], env)
+            except (Unknown, NotPolynomial):
+                l_ = r_ = None
+            if isinstance(l_, (SymObject, PointSym)) and isinstance(r_, (SymObject, PointSym)) and l_ is not r_:
+                return isinstance(t.ops[0], ast.NotEq)
         is_isinf = isinstance(t, ast.Call) and (t.func.attr if isinstance(t.func, ast.Attribute) else getattr(t.func, "id", "")) == "isinf"
         if isinstance(t, (ast.Name, ast.Attribute, ast.Compare)) or (isinstance(t, ast.Call) and not is_isinf):
             try:
@@ -1531,6 +1547,8 @@ class Interp:
         if isinstance(st, ast.With) and all(isinstance(i_.context_expr, ast.Call) and (getattr(i_.context_expr.func, "attr", "") == "errstate") for i_ in st.items):
             self.block(st.body, env)  # np.errstate only silences warnings
             return
+        if isinstance(st, (ast.Raise, ast.Return)) and self.uncertain_flow is not None:
+            raise Unknown(f"leaves the function after the undecided test `{self.uncertain_flow}`")
         if isinstance(st, ast.Raise):
             exc = st.exc.func if isinstance(st.exc, ast.Call) else st.exc
             raise _Raise(exc.id if isinstance(exc, ast.Name) else exc.attr if isinstance(exc, ast.Attribute) else "")
@@ -1543,12 +1561,22 @@ class Interp:
         if isinstance(st, ast.If):
             # `if <validation>: raise`: the constructor is analysed for parameters that pass the validation
             if len(st.body) == 1 and isinstance(st.body[0], ast.Raise) and not st.orelse:
+                if self.generic:
+                    # symbolic arguments (E19.join / E19.act): a validation whose test is decided and true does raise
+                    try:
+                        if self.test(st.test, env) is True:
+                            self.block(st.body, env)
+                    except (Unknown, NotPolynomial):
+                        pass
                 return
             try:
                 t = self.test(st.test, env)
             except Unknown:
                 # both arms: whatever either may write is no longer known
                 self.forget_written(st, env, "written under an undecided test")
+                if any(isinstance(x, (ast.Return, ast.Raise)) for x in ast.walk(st)):
+                    # ... and an arm that leaves the function may or may not have been taken: no later return or raise is the function's for certain
+                    self.uncertain_flow = ast.unparse(st.test)[:40]
                 return
             self.block(st.body if t else st.orelse, env)
             return
@@ -2663,8 +2691,9 @@ def rule_join_meet(run: Run, prog: Program, part: str = "span") -> int:
             it.block(fn.node.body, env)
         except _Done as d:
             got = d.matrix
-            if isinstance(got, TensorSym):
+            if isinstance(got, TensorSym) and isinstance(got.array, Table):
                 return got
+            got = got.array if isinstance(got, TensorSym) else got
             raise Unknown(f"the result is not a tensor ({getattr(got, 'why', type(got).__name__)[:60]})") from None
         except _Raise as r:
             raise RaisedIn(r.name) from None
@@ -2909,6 +2938,7 @@ def rule_metric_constructions(run: Run, prog: Program) -> int:
                     if a_ and isinstance(a_[0], int) and isinstance(a_[1] if len(a_) > 1 else k_.get("covariant", True), bool) else Opaque("eps"),
                     "TensorDiagram": lambda a_, k_: SymDiagram([tuple(x) for x in a_]) if all(isinstance(x, (list, tuple)) and len(x) == 2 for x in a_) else Opaque("diagram"),
                     "from_tensor": lambda a_, k_: a_[-1], "_divide_by_power_of_two": lambda a_, k_: a_[0],
+                    "is_numerical_scalar": lambda a_, k_: isinstance(a_[0], (int, LP)) and not isinstance(a_[0], bool),
                     "from_array": lambda a_, k_: vec([a_[-1]], False) if a_ and isinstance(a_[-1], Table) and len(a_[-1].shape) == 1 else Opaque("from_array"),
                     "join": lambda a_, k_: dual_call(a_, k_), "meet": lambda a_, k_: dual_call(a_, k_),
                     "Point": lambda a_, k_: vec(a_, True), "Line": lambda a_, k_: vec(a_, False), "Plane": lambda a_, k_: vec(a_, False)}
@@ -3016,7 +3046,8 @@ def rule_action_values(run: Run, prog: Program, part: str = "incidence") -> int:
         return {"LeviCivitaTensor": lambda a_, k_: levi_civita(a_[0], a_[1] if len(a_) > 1 else k_.get("covariant", True))
                 if a_ and isinstance(a_[0], int) and isinstance(a_[1] if len(a_) > 1 else k_.get("covariant", True), bool) else Opaque("eps"),
                 "TensorDiagram": lambda a_, k_: SymDiagram([tuple(x) for x in a_]) if all(isinstance(x, (list, tuple)) and len(x) == 2 for x in a_) else Opaque("diagram"),
-                "from_tensor": lambda a_, k_: a_[-1], "_divide_by_power_of_two": lambda a_, k_: a_[0], "join": dual_call, "meet": dual_call}
+                "from_tensor": lambda a_, k_: a_[-1], "_divide_by_power_of_two": lambda a_, k_: a_[0], "join": dual_call, "meet": dual_call,
+                "is_numerical_scalar": lambda a_, k_: isinstance(a_[0], (int, LP)) and not isinstance(a_[0], bool)}
 
     class TransSym(TensorSym):
         def __init__(self, table: Table):
